@@ -27,6 +27,11 @@ def run(ctx):
                "order; the legacy exact nodes are hashable; evaluating a Rational "
                "divides numerator by denominator")
     ctx.decide("ifft/sym_fft pass every option they accept on to fft")
+    ctx.decide("operators of the exact number types that are defined through "
+               "other operators (__sub__, __rsub__, __radd__ as sums of negated "
+               "operands) combine self and other with the right signs; "
+               "polynomial long division leaves its loop only with a remainder "
+               "of smaller degree than the divisor")
     ctx.decline("Euclid, lcm, the FFT's arithmetic, polynomial arithmetic "
                 "(numeric)")
     ctx.assume("traits.common_traits classifies operand types as documented")
@@ -40,6 +45,8 @@ def run(ctx):
     _truthiness(ctx, model)
     _sort_uniq(ctx, model)
     _exact_unit_division(ctx, model)
+    _derived_operators(ctx, model)
+    _division_loop(ctx, model)
 
 
 def _truthiness(ctx, model):
@@ -197,16 +204,29 @@ def _integer_power(ctx, model):
     pss = summarize(fn, plain=True, loop_mode="01")
     saw_raise = False
     ok = True
-    N = ("param", "n")
+    N = ("param", fn.args.args[1].arg)
+    CONV = ("index", "operator.index", "int", "operator.__index__")
+
+    def is_n(v):
+        """the exponent, possibly passed through an integer conversion"""
+        return v == N or (isinstance(v, tuple) and v[0] == "call"
+                          and v[1] in CONV and v[2] == (N,))
+    loop_tests = {id(w.test) for w in ast.walk(fn) if isinstance(w, ast.While)}
+    if not loop_tests:
+        raise AnalysisError("integer_power: square-and-multiply loop not found")
     for ps in pss:
         neg = None
         for _, pol, v in ps.conds:
-            if isinstance(v, tuple) and v[0] == "compare" and v[2] == N and \
-                    v[3][0] == ("const", 0) and v[1] == ("Lt",):
-                neg = pol
-                break
-        entered_loop = any(it[0] == "cond" and isinstance(it[1], ast.Compare)
-                           and ast.unparse(it[1]).replace(" ", "") == "n>0"
+            if isinstance(v, tuple) and v[0] == "compare" and is_n(v[2]) and \
+                    len(v[1]) == 1 and v[3][0][0] == "const":
+                op, k = v[1][0], v[3][0][1]
+                if (op, k) in (("Lt", 0), ("LtE", -1)):
+                    neg = pol
+                    break
+                if (op, k) in (("GtE", 0), ("Gt", -1)):
+                    neg = not pol
+                    break
+        entered_loop = any(it[0] == "cond" and id(it[1]) in loop_tests and it[2]
                            for it in ps.items)
         if neg is True:
             if ps.term == "raise":
@@ -340,3 +360,107 @@ def _evaluate_rational(ctx, model):
            f"{'/'.join(chain)})" if ok else
            "EvaluationMapper does not evaluate a Rational as rec(numerator) / "
            "rec(denominator)", {"chain": chain})
+
+
+def _derived_operators(ctx, model):
+    """`a - b`, `b - a`, `b + a` written in terms of + and unary minus: read the
+    result as a linear form  s*self + o*other  and compare the signs."""
+    want = {"__sub__": (1, -1), "__rsub__": (-1, 1), "__radd__": (1, 1),
+            "__add__": (1, 1)}
+    n_forms = 0
+    for cname in ("pymbolic.polynomial:Polynomial", "pymbolic.rational:Rational"):
+        c = model.cls(cname)
+        for op, (ws, wo) in want.items():
+            mem = c.members.get(op)
+            if mem is None or mem.kind != "func" or len(mem.node.args.args) != 2:
+                continue
+            me, other = (("param", a.arg) for a in mem.node.args.args)
+
+            def form(v):
+                """-> (coefficient of self, coefficient of other) or None"""
+                if v == me:
+                    return (1, 0)
+                if v == other:
+                    return (0, 1)
+                if not isinstance(v, tuple) or not v:
+                    return None
+                if v[0] == "unop" and v[1] == "USub":
+                    f = form(v[2])
+                    return None if f is None else (-f[0], -f[1])
+                if v[0] == "binop" and v[1] in ("Add", "Sub"):
+                    a, b = form(v[2]), form(v[3])
+                    if a is None or b is None:
+                        return None
+                    k = 1 if v[1] == "Add" else -1
+                    return (a[0] + k * b[0], a[1] + k * b[1])
+                if v[0] == "call" and len(v) > 4 and isinstance(v[4], tuple) \
+                        and v[4][0] == "recv" and not v[3]:
+                    recv, meth = form(v[4][1]), v[4][2]
+                    if meth == "__neg__" and not v[2] and recv is not None:
+                        return (-recv[0], -recv[1])
+                    if len(v[2]) == 1 and recv is not None:
+                        arg = form(v[2][0])
+                        if arg is None:
+                            return None
+                        if meth in ("__add__", "__radd__"):
+                            return (recv[0] + arg[0], recv[1] + arg[1])
+                        if meth == "__sub__":
+                            return (recv[0] - arg[0], recv[1] - arg[1])
+                        if meth == "__rsub__":
+                            return (arg[0] - recv[0], arg[1] - recv[1])
+                return None
+
+            forms = []
+            derived = True
+            for ps in summarize(mem.node, plain=True):
+                if ps.term != "return":
+                    continue
+                f = form(ps.retval)
+                if f is None:
+                    derived = False
+                    break
+                forms.append(f)
+            if not derived or not forms:
+                continue            # computed directly: numeric, not decided
+            n_forms += 1
+            bad = [f for f in forms if f != (ws, wo)]
+            sym = {"__sub__": "self - other", "__rsub__": "other - self",
+                   "__radd__": "other + self", "__add__": "self + other"}[op]
+            ctx.ob(f"E/{c.name}.{op}/signs", not bad, c.loc(mem.node),
+                   f"{sym} is built with the right signs" if not bad else
+                   f"{c.name}.{op} should compute {sym} but returns "
+                   f"({bad[0][0]:+d})*self + ({bad[0][1]:+d})*other"
+                   + (": 1 - p gives p - 1, and extended_euclidean, which "
+                      "computes Q - quot*R with an integer Q, returns "
+                      "cofactors that do not satisfy g = a*q + b*r"
+                      if op == "__rsub__" else ""))
+    ctx.floor("derived operators of Polynomial/Rational", n_forms, 4)
+
+
+def _division_loop(ctx, model):
+    """Polynomial.__divmod__: the long-division loop runs while the remainder's
+    degree is not below the divisor's; a `return` from inside that loop hands
+    back a remainder that is *not* smaller than the divisor -- Euclid's loop
+    (extended_euclidean) then makes no progress."""
+    c = model.cls("pymbolic.polynomial:Polynomial")
+    mem = c.members.get("__divmod__")
+    if mem is None or mem.kind != "func":
+        raise AnalysisError("Polynomial.__divmod__ not found")
+    loops = [w for w in ast.walk(mem.node) if isinstance(w, ast.While)
+             and sum(isinstance(a, ast.Attribute) and a.attr == "degree"
+                     for a in ast.walk(w.test)) >= 2]
+    if len(loops) != 1:
+        raise AnalysisError("Polynomial.__divmod__: expected one division loop "
+                            f"controlled by two degrees, found {len(loops)}")
+    w = loops[0]
+    inside = [r for st in w.body for r in ast.walk(st)
+              if isinstance(r, ast.Return)]
+    ctx.ob("P/Polynomial.__divmod__/remainder-below-divisor", not inside,
+           c.loc(inside[0] if inside else w),
+           "the division loop is left only when the remainder's degree is "
+           "below the divisor's" if not inside else
+           "Polynomial.__divmod__ returns from inside the division loop (when a "
+           "leading coefficient does not divide exactly) with a remainder whose "
+           "degree is not below the divisor's: extended_euclidean(x**2 + x - 6, "
+           "x - 3) over integer coefficients alternates between (x - 3, 6) and "
+           "(6, x - 3) and never returns")
